@@ -83,11 +83,20 @@ def back(T, x, y):
     return x, y
 
 
+ODD_APER = ('neg9', 'masked9', 'pixel1')
+
+
 def aper_positions(S):
     ny, nx = S['shape']
     # generic (irrational-looking) fractions: no sub-pixel centre may sit on an aperture boundary (rule 1)
     xs = [p[1] + 0.3137 for p in S['src']] + [3.3319, nx - 6.2191]
     ys = [p[2] - 0.2719 for p in S['src']] + [ny / 2 + 0.4177, 7.7443]
+    # apertures on three of the odd segments: the negative block (negative sums / undefined moments), the completely
+    # masked block (small apertures have no unmasked pixel at all) and the single hot pixel
+    for o in S['odd']:
+        if o['kind'] in ODD_APER:
+            xs.append(o['xc'] + 0.3137)
+            ys.append(o['yc'] - 0.2719)
     return np.array(xs), np.array(ys)
 
 
@@ -139,6 +148,10 @@ ASTAT_CFG = {
     'rectannulus-subpixel': dict(aper='rectannulus', method='subpixel', err=False),
     'circannulus-exact-nomask': dict(aper='circannulus', method='exact', mask=False),
     'scalar-ellipse': dict(aper='ellipse2', method='exact', scalar=True),
+    # apertures smaller than the odd segments: r=1.1 lies inside the 3x3 masked block (no unmasked pixel: every
+    # statistic takes its "no data" branch); r=0.45 holds at most one pixel centre (empty 'center' masks)
+    'small-circle-exact': dict(aper='smallcircle', method='exact'),
+    'tiny-circle-center-sigclip': dict(aper='tinycircle', method='center', clip=True),
 }
 NASTAT_QUICK = len(ASTAT_CFG)
 # thorough: full product aperture class x sum_method x sigma clipping
@@ -148,6 +161,15 @@ for _ap in ('circle', 'circannulus', 'ellipse', 'ellannulus', 'rect', 'rectannul
             ASTAT_CFG[f'product:{_ap}/{_m}/{"sigclip" if _c else "noclip"}'] = dict(aper=_ap, method=_m, clip=_c,
                                                                                    lbkg=_c)
 ASTAT_NAMES = list(ASTAT_CFG)
+
+
+def set_round(res):
+    """Rows with isotropic second moments (semimajor == semiminor, e.g. a single pixel): ``orientation`` is undefined."""
+    if 'orientation' in res.cols:
+        a = np.asarray(res.cols['semimajor_sigma']['v'], float)
+        b = np.asarray(res.cols['semiminor_sigma']['v'], float)
+        with np.errstate(invalid='ignore'):
+            res.cols['orientation']['extra']['ambig'] = np.abs(a - b) <= 1e-9 * np.abs(a)
 
 
 def set_mom_scales(res, m00, L):
@@ -184,6 +206,8 @@ def run_aperstats(S, T, ci):
         kw['local_bkg'] = 0.3 + 0.1 * np.arange(len(bx))
     ap, R = {
         'circle': lambda: (CircularAperture(pos, 4.6), 4.6),
+        'smallcircle': lambda: (CircularAperture(pos, 1.1), 1.1),
+        'tinycircle': lambda: (CircularAperture(pos, 0.45), 0.45),
         'circannulus': lambda: (CircularAnnulus(pos, 2.5, 6.5), 6.5),
         'ellipse': lambda: (EllipticalAperture(pos, 6.1, 3.2, theta=T.theta(0.9)), 6.1),
         'ellipse2': lambda: (EllipticalAperture(pos[0], 5.2, 2.7, theta=T.theta(2.4)), 5.2),
@@ -213,6 +237,7 @@ def run_aperstats(S, T, ci):
     m = res.cols['moments']['v']
     bb = res.cols['bbox.max']['v'] - res.cols['bbox.min']['v']
     set_mom_scales(res, m[:, 0, 0], bb.max(axis=1))
+    set_round(res)
     return res
 
 
@@ -234,15 +259,17 @@ def finish_detected(res, S, T, xname, yname, R):
 
 
 FP_CFG = ['box3', 'box(5,3)-mask', 'footprint3x5-border(2,4)', 'box5-npeaks7', 'box(5,7)-centroid_com',
-          'box5-centroid_quadratic-mask']
+          'box5-centroid_quadratic-mask', 'thresholdmap-box3', 'thr6-box5-centroid_1dg-error-mask',
+          'thr6-box(7,5)-centroid_2dg-error']
 
 
 def run_find_peaks(S, T, ci):
-    from photutils.centroids import centroid_com, centroid_quadratic
+    from photutils.centroids import centroid_1dg, centroid_2dg, centroid_com, centroid_quadratic
     from photutils.detection import find_peaks
     name = FP_CFG[ci]
     data = T.img(S['data'])
     kw, R = {}, 2.5
+    thr, fit = 1.5, False
     if name == 'box3':
         kw, R = {'box_size': 3}, 1 + 1.5
     elif name == 'box(5,3)-mask':
@@ -254,14 +281,33 @@ def run_find_peaks(S, T, ci):
         kw, R = {'box_size': 5, 'npeaks': 7}, 1 + 2.5
     elif name == 'box(5,7)-centroid_com':
         kw, R = {'box_size': (5, 7), 'centroid_func': centroid_com}, 1 + 3.5
+    elif name == 'thresholdmap-box3':
+        # per-pixel threshold map (a ramp), translated with the scene; the padding gets a positive threshold
+        thr = T.img(0.6 * S['bkg'], fill=1.0)
+        kw, R = {'box_size': 3}, 1 + 1.5
+    elif name == 'thr6-box5-centroid_1dg-error-mask':
+        # error-aware centroid functions: the (non-constant) error map is translated with the scene; threshold 6
+        # (7.5 noise sigma) keeps the number of Gaussian fits per call small
+        thr, fit = 6.0, True
+        kw, R = {'box_size': 5, 'centroid_func': centroid_1dg, 'error': T.img(S['error'], fill=1.0),
+                 'mask': T.img(S['mask'])}, 1 + 2.5
+    elif name == 'thr6-box(7,5)-centroid_2dg-error':
+        thr, fit = 6.0, True
+        kw, R = {'box_size': (7, 5), 'centroid_func': centroid_2dg, 'error': T.img(S['error'], fill=1.0)}, 1 + 3.5
     else:
         kw, R = {'box_size': 5, 'centroid_func': centroid_quadratic, 'mask': T.img(S['mask'])}, 1 + 2.5
-    tbl = find_peaks(data, 1.5, **kw)
+    tbl = find_peaks(data, thr, **kw)
     res = table_to_res('find_peaks', tbl, True)
+    if fit:
+        # Gaussian fits: tolerance class 'fit' (the cutouts are identical, so the fits are; only a fit done in
+        # image coordinates would differ, by its convergence tolerance)
+        for c in ('x_centroid', 'y_centroid'):
+            if c in res.cols:
+                res.cols[c]['tol'] = 'fit'
     return finish_detected(res, S, T, 'x_peak', 'y_peak', R)
 
 
-DAO_CFG = ['default', 'elliptical-exclude_border-mask', 'xycoords', 'peakmax-minsep']
+DAO_CFG = ['default', 'elliptical-exclude_border-mask', 'xycoords', 'peakmax-minsep', 'thr3-open-filters-mask']
 
 
 def run_dao(S, T, ci):
@@ -276,6 +322,11 @@ def run_dao(S, T, ci):
     elif name == 'xycoords':
         xi, yi = T.ipos([int(p[1] + 0.5) for p in S['src']], [int(p[2] + 0.5) for p in S['src']])
         f = DAOStarFinder(4.0, 3.0, xycoords=np.transpose([xi, yi]), sharplo=0.0, roundlo=-3.0, roundhi=3.0)
+    elif name == 'thr3-open-filters-mask':
+        # low threshold, sharpness / roundness cuts wide open: the odd segments (hot pixel, thin lines, blocks)
+        # and noise peaks stay in the table instead of being filtered away
+        f = DAOStarFinder(3.0, 2.5, sharplo=-10.0, sharphi=10.0, roundlo=-10.0, roundhi=10.0)
+        mask = T.img(S['mask'])
     else:
         f = DAOStarFinder(6.0, 2.6, peakmax=88.0, min_separation=4.0)
     tbl = f(T.img(S['data']), mask=mask)
@@ -284,7 +335,7 @@ def run_dao(S, T, ci):
     return finish_detected(res, S, T, 'xcentroid', 'ycentroid', 2 * hs + f.min_separation + 2)
 
 
-IRAF_CFG = ['default', 'exclude_border-mask']
+IRAF_CFG = ['default', 'exclude_border-mask', 'thr4-open-filters']
 
 
 def run_iraf(S, T, ci):
@@ -292,6 +343,8 @@ def run_iraf(S, T, ci):
     mask = None
     if IRAF_CFG[ci] == 'default':
         f = IRAFStarFinder(8.0, 3.0, roundhi=1.0, sharplo=0.2, sharphi=3.0)
+    elif IRAF_CFG[ci] == 'thr4-open-filters':
+        f = IRAFStarFinder(4.0, 2.8, minsep_fwhm=1.0, sharplo=-10.0, sharphi=10.0, roundlo=-10.0, roundhi=10.0)
     else:
         f = IRAFStarFinder(6.0, 2.5, exclude_border=True, minsep_fwhm=1.5, sharplo=0.2, sharphi=3.0, roundhi=1.0)
         mask = T.img(S['mask'])
@@ -530,6 +583,7 @@ def run_catalog(S, T, ci):
         res.foot['cut'] = inside(shape, xc, yc, max(CUT_SHAPE) / 2.0 + 1.0)
     m = res.cols['moments']['v']
     set_mom_scales(res, m[:, 0, 0], np.maximum(w, h))
+    set_round(res)
     return res
 
 
@@ -598,9 +652,12 @@ def run_profiles(S, T, ci):
 
 
 # ----------------------------------------------------------------------------
-# centroid functions (transposition only)
+# centroid functions: transposition (the property names them) and translation of centroid_sources
+# (it is the centroid step of find_peaks, which hands it the peak positions, data, mask and error)
 # ----------------------------------------------------------------------------
-CEN_CFG = ['cutouts']
+CEN_CFG = ['cutouts+centroid_sources']
+CEN_FOOT = np.array([[0, 1, 1, 1, 1, 1, 0], [1, 1, 1, 1, 1, 1, 1], [1, 1, 1, 1, 1, 1, 1], [1, 1, 1, 1, 1, 1, 1],
+                     [1, 1, 1, 1, 1, 0, 0]], bool)          # (ny=5, nx=7), asymmetric
 
 
 def run_centroids(S, T, ci):
@@ -611,22 +668,21 @@ def run_centroids(S, T, ci):
     err = T.img(S['error'], fill=1.0)
     mask = T.img(S['mask'])
     out = {}
-    hy, hx = 6, 7                                 # cutout half sizes (ny=13, nx=15) in the base frame
-    xs, ys = [], []
+    h0, h1 = T.pair_yx((6, 7))                    # cutout half sizes (ny=13, nx=15) in the base frame
+    xs, ys, pks = [], [], []
     for p in S['src']:
         ix, iy = int(p[1] + 0.5), int(p[2] + 0.5)
         if not inside(S['shape'], ix, iy, 8.0):
             continue
         xs.append(ix)
         ys.append(iy)
-        if T.kind == 'T':
-            sl = (slice(ix - hx, ix + hx + 1), slice(iy - hy, iy + hy + 1))
-        else:
-            sl = (slice(iy - hy, iy + hy + 1), slice(ix - hx, ix + hx + 1))
+        tx, ty = (int(v) for v in T.ipos(ix, iy))
+        sl = (slice(ty - h0, ty + h0 + 1), slice(tx - h1, tx + h1 + 1))
         cut, ce, cm = data[sl].copy(), err[sl].copy(), mask[sl].copy()
         out.setdefault('centroid_com', []).append(centroid_com(cut, mask=cm))
         out.setdefault('centroid_quadratic', []).append(centroid_quadratic(cut, mask=cm))
         pk = np.unravel_index(np.argmax(np.where(cm, -np.inf, cut)), cut.shape)
+        pks.append((int(pk[1]) + sl[1].start, int(pk[0]) + sl[0].start))       # in the transformed frame
         out.setdefault('centroid_quadratic(peak,box)', []).append(
             centroid_quadratic(cut, xpeak=int(pk[1]), ypeak=int(pk[0]), fit_boxsize=T.pair_yx((5, 3)),
                                search_boxsize=T.pair_yx((3, 5)), mask=cm))
@@ -636,12 +692,31 @@ def run_centroids(S, T, ci):
     for k, vals in out.items():
         res.add(k, np.array(vals, float))
     px, py = T.pos(np.array(xs) + 0.3, np.array(ys) - 0.4)
+    foot = np.ascontiguousarray(CEN_FOOT.T) if T.kind == 'T' else CEN_FOOT
     for tag, func, kw in (('com', centroid_com, {}), ('quadratic', centroid_quadratic, {'fit_boxsize': 3}),
-                          ('2dg', centroid_2dg, {})):
-        cx, cy = centroid_sources(T.img(S['data']), px, py, box_size=T.pair_yx((9, 7)), mask=T.img(S['mask']),
-                                  centroid_func=func, **kw)
+                          ('2dg', centroid_2dg, {}),
+                          # error-aware centroid functions with the non-constant error map of the scene
+                          ('1dg,error', centroid_1dg, {'error': err}), ('2dg,error', centroid_2dg, {'error': err}),
+                          ('com,footprint', centroid_com, {'footprint': foot})):
+        kw = dict(kw)
+        if 'footprint' not in kw:
+            kw['box_size'] = T.pair_yx((9, 7))
+        cx, cy = centroid_sources(data.copy(), px, py, mask=mask.copy(), centroid_func=func, **kw)
         res.add(f'centroid_sources({tag}).x', np.asarray(cx, float))
         res.add(f'centroid_sources({tag}).y', np.asarray(cy, float))
+        if '2dg' in tag:
+            for c in 'xy':
+                res.cols[f'centroid_sources({tag}).{c}']['extra']['tol_shift'] = 'fit'
+    # xpeak / ypeak are image coordinates that centroid_sources re-bases to the cutout: one call per source
+    cxs, cys = [], []
+    for i in range(res.n):
+        cx, cy = centroid_sources(data.copy(), px[i], py[i], box_size=T.pair_yx((9, 7)), mask=mask.copy(),
+                                  centroid_func=centroid_quadratic, xpeak=pks[i][0], ypeak=pks[i][1],
+                                  fit_boxsize=T.pair_yx((5, 3)))
+        cxs.append(float(cx[0]))
+        cys.append(float(cy[0]))
+    res.add('centroid_sources(quadratic,xypeak).x', np.array(cxs, float))
+    res.add('centroid_sources(quadratic,xypeak).y', np.array(cys, float))
     res.foot['all'] = np.ones(res.n, bool)
     return res
 
@@ -662,7 +737,7 @@ APIS = {
     'SourceCatalog': (run_catalog, CAT_NAMES, True),
     'profiles': (run_profiles, PROF_CFG, True),
     'make_model_image': (run_model_image, MODEL_CFG, False),
-    'centroids': (run_centroids, CEN_CFG, 'only'),
+    'centroids': (run_centroids, CEN_CFG, True),
 }
 
 
